@@ -1021,6 +1021,16 @@ def table_cases(out, thorough):
         for fl in (0, F["NULLDUMMY"], F["NULLFAIL"], F["NULLDUMMY"] | F["NULLFAIL"] | F["STRICTENC"]):
             for opn in ("CHECKMULTISIG", "CHECKMULTISIGVERIFY"):
                 out.append(Case("eval", fl, (sc(opn, "DEPTH"), stack), ctxs[0], "0", tag="table-multisig-shape"))
+    # every (key count, signature count) shape up to 3 keys incl. one signature too many, items present or one short
+    for nk in range(0, 4):
+        for ns in range(0, nk + 2):
+            for sigitem in (b"", b"s"):
+                full = [b""] + [sigitem] * ns + [scriptnum(ns)] + [b"k"] * nk + [scriptnum(nk)]
+                for stack in (full, full[1:], [b"\x01"] + full[1:]):
+                    for fl in (0, F["NULLDUMMY"] | F["NULLFAIL"]):
+                        for tail in (sc("DEPTH"), sc("NOT"), b""):
+                            out.append(Case("eval", fl, (sc("CHECKMULTISIG") + tail, stack), ctxs[0], "0", tag="table-multisig-shape"))
+                        out.append(Case("eval", fl, (sc("CHECKMULTISIGVERIFY", "1"), stack), ctxs[0], "0", tag="table-multisig-shape"))
     # --- stack size 999 / 1000 / 1001 (main + alt)
     for n in (999, 1000, 1001):
         out.append(Case("eval", 0, (b"\x51" * n, []), ctxs[0], "0", tag="table-stacksize"))
@@ -1050,6 +1060,42 @@ def table_cases(out, thorough):
         for kind in ("p2wsh", "p2sh-p2wsh"):
             out.append(wrap(None, kind, sc("DROP", "1"), [b"\x00" * ln], F["P2SH"] | F["WITNESS"], ctxs[0]))
             out[-1].tag = "table-wrapsize"
+
+
+# ---------------------------------------------------------------------------------------------- signature encoding table
+def sig_table(out, thorough):
+    """key encoding x signature class x flag class x (CHECKSIG | CHECKSIG NOT | 1-of-1, 1-of-2 CHECKMULTISIG [NOT]) x sigversion,
+    signature and dummy on the initial stack; real signatures over the script"""
+    ctx = S.fmt_ctx(amount=5000)
+    flag_sets = [0, F["STRICTENC"], F["DERSIG"], F["LOW_S"], F["NULLFAIL"], F["WITNESS_PUBKEYTYPE"], F["STRICTENC"] | F["NULLFAIL"] | F["NULLDUMMY"], STD]
+    sig_classes = [("empty", {}), ("good", {}), ("high", {"high_s": True}), ("seq-1", {"seqdelta": -1}), ("trail", {"trail": b"\x00"}), ("rpad", {"rpad": 1}),
+                   ("ht00", {"ht": 0}), ("ht04", {"ht": 4}), ("ht83", {"ht": 0x83}), ("tiny", {}), ("wrong", {})]
+    forms = KEYFORMS_OK + KEYFORMS_BAD
+    for form in forms:
+        ki = 4 if form in ("u33", "c5") else 0
+        pk = sec(ki, form)
+        other = sec(1, "c")
+        templates = [("cs", sc(push(pk), "CHECKSIG"), 0), ("cs-not", sc(push(pk), "CHECKSIG", "NOT"), 0),
+                     ("ms11", sc("1", push(pk), "1", "CHECKMULTISIG"), 1), ("ms11-not", sc("1", push(pk), "1", "CHECKMULTISIG", "NOT"), 1),
+                     ("ms12a", sc("1", push(pk), push(other), "2", "CHECKMULTISIG", "NOT"), 1), ("ms12b", sc("1", push(other), push(pk), "2", "CHECKMULTISIG", "NOT"), 1)]
+        for tname, script, dummy in templates:
+            for sv in ("0", "1"):
+                base = Case("eval", 0, (script, []), ctx, sv)
+                info = base.txinfo()
+                for cname, kw in sig_classes:
+                    kw = dict(kw)
+                    ht = kw.pop("ht", 1)
+                    if cname == "empty":
+                        sig = b""
+                    elif cname == "tiny":
+                        sig = b"\x30\x01"
+                    elif cname == "wrong":
+                        sig = sign(info, ki, script + b"\x61", ht, sv, high_s=False)
+                    else:
+                        kw.setdefault("high_s", False)
+                        sig = sign(info, ki, script, ht, sv, **kw)
+                    for fl in (flag_sets if thorough or cname in ("empty", "good", "seq-1") else flag_sets[:4] + flag_sets[-1:]):
+                        out.append(Case("eval", fl, (script, ([b""] if dummy else []) + [sig]), ctx, sv, tag="sigtable-" + tname))
 
 
 # ---------------------------------------------------------------------------------------------- deterministic pipeline table
@@ -1184,6 +1230,59 @@ def regression_cases():
     return out
 
 
+# ---------------------------------------------------------------------------------------------- anchored line coverage
+ANCHORS = ["pycoin/vm/VM.py", "pycoin/vm/ConditionalStack.py", "pycoin/vm/ScriptStreamer.py", "pycoin/coins/bitcoin/VM.py",
+           "pycoin/coins/bitcoin/make_instruction_lookup.py", "pycoin/coins/bitcoin/ScriptStreamer.py", "pycoin/coins/bitcoin/SolutionChecker.py",
+           "pycoin/coins/bitcoin/P2SChecker.py", "pycoin/coins/bitcoin/SegwitChecker.py", "pycoin/satoshi/intops.py", "pycoin/satoshi/stackops.py",
+           "pycoin/satoshi/miscops.py", "pycoin/satoshi/checksigops.py", "pycoin/satoshi/IntStreamer.py"]
+
+
+def _function_lines(path):
+    """line numbers that belong to function bodies (module-level statements run at import time and are not traced here)"""
+    lines = set()
+
+    def walk(code, inside):
+        if inside:
+            for _, _, ln in code.co_lines():
+                if ln is not None:
+                    lines.add(ln)
+        for c in code.co_consts:
+            if hasattr(c, "co_code"):
+                walk(c, True)
+
+    walk(compile(open(path).read(), path, "exec"), False)
+    return lines
+
+
+def line_coverage(ops):
+    """stdlib tracing of the anchored files while the implementation runs a sample of the cases"""
+    import sys
+    files = {str(lib.REPO / a): a for a in ANCHORS}
+    hit: dict = {a: set() for a in ANCHORS}
+
+    def tracer(frame, event, arg):
+        a = files.get(frame.f_code.co_filename)
+        if a is None:
+            return None
+        if event == "line" or event == "call":
+            hit[a].add(frame.f_lineno)
+        return tracer
+
+    sys.settrace(tracer)
+    try:
+        for op in ops:
+            _impl_case(_case(op))
+    finally:
+        sys.settrace(None)
+    rep = {}
+    for path, a in files.items():
+        want = _function_lines(path)
+        # lines of doctest-only / disabled-opcode helpers that the VM can never reach are listed, not hidden
+        miss = sorted(want - hit[a])
+        rep[a] = {"function_lines": len(want), "executed": len(want & hit[a]), "not_executed": miss[:60]}
+    return rep
+
+
 # ---------------------------------------------------------------------------------------------- gen
 def _emit_cases(cases, emit, ctx):
     S.resolve(cases)
@@ -1221,6 +1320,7 @@ def gen(ctx, emit):
     cases: list = regression_cases()
     table_cases(cases, ctx.thorough)
     pipeline_table(cases, ctx.thorough)
+    sig_table(cases, ctx.thorough)
     _emit_cases(cases, emit, ctx)
 
     def batch(n, f):
@@ -1239,9 +1339,13 @@ def gen(ctx, emit):
             sv = "1" if rng.random() < 0.2 else "0"
             cs.append(Case("eval", rand_eval_flags(rng), (synth_program(rng, minimal, S.parse_ctx(c)), rand_initial_stack(rng)), c, sv, tag="random-eval"))
 
-    batch(ctx.n(25000, 240000), random_evals)
-    batch(ctx.n(6000, 40000), lambda k, cs: pipeline_scenarios(rng, k, cs))
-    batch(ctx.n(1500, 12000), lambda k, cs: sig_scenarios(rng, k, cs))
+    batch(ctx.n(25000, 600000), random_evals)
+    batch(ctx.n(6000, 100000), lambda k, cs: pipeline_scenarios(rng, k, cs))
+    batch(ctx.n(1500, 40000), lambda k, cs: sig_scenarios(rng, k, cs))
+    # anchored line coverage on a sample (every k-th case, all regression cases)
+    allops = list(CASES)
+    step = max(1, len(allops) // ctx.n(4000, 12000))
+    ctx.extra_cov["anchored_line_coverage"] = line_coverage(allops[::step])
     tot = STATS["same_code"] + STATS["diff_code"]
     ctx.extra_cov["error_code_agreement"] = {
         "both_fail": tot, "same_code": STATS["same_code"], "different_code": STATS["diff_code"],
